@@ -655,6 +655,45 @@ class MapGen:
         return spec
 
 
+def unexport(name):
+    """Name -> name, ID -> id, UserID -> userID, HTTPServer -> httpServer (how such fields are usually spelled)"""
+    i = 0
+    while i < len(name) and name[i].isupper():
+        i += 1
+    if i <= 1:
+        return name[:1].lower() + name[1:]
+    if i == len(name):
+        return name.lower()
+    return name[:i - 1].lower() + name[i - 1:]
+
+
+def to_new(rng, spec, side, keep_exported=0.2, getonly=0.15, setonly=0.15, newmark=0.3):
+    """render one side as a `shoot new -getset` type: unexported fields with get/set directives and `new` marks"""
+    st = spec[side]
+    members = []
+    for m in st["members"]:
+        if m["k"] != "f":
+            continue
+        m = dict(m)
+        if m["name"][:1].isupper() and rng.random() >= keep_exported:
+            m["name"] = unexport(m["name"])
+            r = rng.random()
+            if r < getonly:
+                m["get"] = True
+            elif r < getonly + setonly:
+                m["set"] = True
+            elif r < getonly + setonly + 0.1:
+                m["get"] = m["set"] = True
+        if side == "dest" and m.get("tag") not in (None, "-"):
+            m["tag"] = None
+        members.append(m)
+    if members and rng.random() < newmark:
+        for m in rng.sample(members, rng.randint(1, len(members))):
+            m["new"] = True
+    spec[side] = dict(st, kind="new", members=members)
+    return spec
+
+
 def count_features(spec, feats=None):
     feats = feats if feats is not None else {}
 
